@@ -40,9 +40,21 @@ size_t g_added_nl_count; unsigned g_added_type;
 }
 #define fprintf(stream, ...) (g_msgs++)
 Chunk *const Chunk::NullChunkPtr = &g_nullc;
+#ifdef SINGLE_CHUNK_LIST
+// a list with exactly one chunk: head and tail are the same chunk; once it is deleted the list is empty.  Deleting a chunk
+// that is not in the list (any more) is the memory-safety fault a stale pointer causes (C06): the model asserts it.
+Chunk *Chunk::GetHead() { return g_deleted_head ? &g_nullc : &g_head_chunk; }
+Chunk *Chunk::GetTail() { return g_deleted_head ? &g_nullc : &g_head_chunk; }
+void Chunk::Delete(Chunk * &pc) { VASSERT(pc == &g_head_chunk && !g_deleted_head, "Chunk::Delete: the chunk is (still) in the list"); g_deleted_head = true; pc = NullChunkPtr; }
+#else
 Chunk *Chunk::GetHead() { return &g_head_chunk; }
 Chunk *Chunk::GetTail() { return &g_tail_chunk; }
-void Chunk::Delete(Chunk * &pc) { if (pc == &g_head_chunk) { g_deleted_head = true; } if (pc == &g_tail_chunk) { g_deleted_tail = true; } pc = NullChunkPtr; }
+void Chunk::Delete(Chunk * &pc)
+{
+   VASSERT((pc == &g_head_chunk && !g_deleted_head) || (pc == &g_tail_chunk && !g_deleted_tail), "Chunk::Delete: the chunk is (still) in the list");
+   if (pc == &g_head_chunk) { g_deleted_head = true; } if (pc == &g_tail_chunk) { g_deleted_tail = true; } pc = NullChunkPtr;
+}
+#endif
 Chunk *Chunk::CopyAndAddBefore(Chunk *pos) const
 {
    if (pos == &g_head_chunk) { g_added_before_head = true; } else if (pos == NullChunkPtr) { g_added_at_tail = true; } else { VASSERT(0, "CopyAndAddBefore at an unexpected position"); }
